@@ -108,3 +108,93 @@ func runC09Pause(c *Ctx, cfg c09PauseCfg) (sig, msg string) {
 	}
 	return "", ""
 }
+
+// scenario F: Close arrives while Transaction.Commit is retrying a failing manifest write (it sleeps holding
+// compCommitLk) and a table compaction is waiting for that lock in its own commit.  Commit gives up with the
+// error — and has to release the lock, otherwise the compaction goroutine never ends and Close waits for it forever.
+func runC09CommitCloseRace(c *Ctx, seed uint64) (sig, msg string) {
+	r := rng.New(seed)
+	st := stor.New()
+	st.KeepOps(false)
+	o := &opt.Options{WriteBuffer: 1024, CompactionL0Trigger: 2, CompactionTableSize: 4 << 10, DisableLargeBatchTransaction: true}
+	db, err := leveldb.Open(st, o)
+	if err != nil {
+		return "open:error", err.Error()
+	}
+	val := func(n int) []byte { return bytes.Repeat([]byte{'v'}, n) }
+	// level-0 tables without compaction: table compactions are held back from now on
+	gate := make(chan struct{})
+	var gated, waiting int32
+	st.Delay = func(k stor.Kind, fd storage.FileDesc) int {
+		if atomic.LoadInt32(&gated) == 1 && k == stor.OpCreate && fd.Type == storage.TypeTable && inTableCompaction() {
+			atomic.StoreInt32(&waiting, 1)
+			<-gate
+		}
+		return 0
+	}
+	atomic.StoreInt32(&gated, 1)
+	released := false
+	release := func() {
+		if !released {
+			released = true
+			close(gate)
+		}
+	}
+	defer release()
+	// level-0 tables through small transactions (no memdb flush is involved, which would have to pause the held compaction)
+	for i := 0; i < 6 && atomic.LoadInt32(&waiting) == 0; i++ {
+		err, ok := watch(20*time.Second, func() error {
+			t, err := db.OpenTransaction()
+			if err != nil {
+				return err
+			}
+			t.Put([]byte(fmt.Sprintf("k%02d", r.Intn(20))), val(50), nil)
+			return t.Commit()
+		})
+		if !ok || err != nil {
+			release()
+			go db.Close()
+			c.Res.Count("commit-close", "setup-not-possible")
+			return "", ""
+		}
+		time.Sleep(20 * time.Millisecond)
+	}
+	if atomic.LoadInt32(&waiting) == 0 {
+		release()
+		watch(20*time.Second, db.Close)
+		c.Res.Count("commit-close", "compaction-not-reached")
+		return "", ""
+	}
+	// the transaction: its Commit will fail on the manifest and retry once a second, holding compCommitLk
+	var tr *leveldb.Transaction
+	if err, ok := watch(20*time.Second, func() (err error) { tr, err = db.OpenTransaction(); return }); !ok || err != nil {
+		release()
+		go db.Close()
+		c.Res.Count("commit-close", "opentx-not-possible")
+		return "", ""
+	}
+	tr.Put([]byte("tx"), []byte("x"), nil)
+	var failing int32 = 1
+	st.SetHooks(func(op stor.Op) stor.FaultMode {
+		if atomic.LoadInt32(&failing) == 1 && op.Fd.Type == storage.TypeManifest && (op.Kind == stor.OpWrite || op.Kind == stor.OpSync) {
+			return stor.FailNoEffect
+		}
+		return stor.NoFault
+	}, nil)
+	commitDone := make(chan error, 1)
+	go func() { commitDone <- tr.Commit() }()
+	time.Sleep(150 * time.Millisecond) // first attempt failed, Commit sleeps with the lock
+	release()                          // the compaction goes on to its own commit and waits for the lock
+	time.Sleep(200 * time.Millisecond)
+	c.Res.Count("commit-close", "close-during-commit-retry")
+	if _, ok := watch(30*time.Second, db.Close); !ok {
+		return "commit-retry:close:hang", "Close issued while Transaction.Commit was retrying a failing manifest write (holding compCommitLk) with a table compaction waiting for that lock did not return within 30 s\n" + dumpBlocked()
+	}
+	select {
+	case <-commitDone:
+	case <-time.After(30 * time.Second):
+		return "commit-retry:commit:hang", "Transaction.Commit did not return after Close\n" + dumpBlocked()
+	}
+	atomic.StoreInt32(&failing, 0)
+	return "", ""
+}
